@@ -253,6 +253,90 @@ impl AbsModel {
         out
     }
 
+    /// number of trainable classes of a tag model
+    pub fn n_class(tags: &[Vec<String>]) -> usize {
+        tags.iter().filter(|c| c.len() >= 2).map(|c| c.len()).sum()
+    }
+
+    /// brute-force tag specification for the token `[st, en)`: (tag row of `n_tags` slots, class scores)
+    pub fn tag_spec(&self, text: &str, st: usize, en: usize) -> (Vec<Option<String>>, Vec<i64>) {
+        let chars: Vec<char> = text.chars().collect();
+        let types: Vec<u8> = chars.iter().map(|&c| vaporetto::CharacterType::get_type(c) as u8).collect();
+        let n_tags = self.tag_models.iter().map(|t| t.tags.len()).max().unwrap_or(0);
+        let surface: String = chars[st..en].iter().collect();
+        let Some(tm) = self.tag_models.iter().rev().find(|t| t.token == surface) else {
+            return (vec![None; n_tags], vec![]);
+        };
+        let i = en - 1;
+        let n = chars.len();
+        let nc = Self::n_class(&tm.tags);
+        let mut scores = vec![0i64; nc];
+        for (c, sc) in scores.iter_mut().enumerate() {
+            *sc += tm.bias.get(c).copied().unwrap_or(0) as i64;
+            for g in &tm.char_ngrams {
+                let gc: Vec<char> = g.ngram.chars().collect();
+                for (rel, w) in &g.weights {
+                    let e = i + *rel as usize + 1;
+                    if e <= n && e >= gc.len() && chars[e - gc.len()..e] == gc[..] {
+                        *sc += w.get(c).copied().unwrap_or(0) as i64;
+                    }
+                }
+            }
+            for g in &tm.type_ngrams {
+                for (rel, w) in &g.weights {
+                    let e = i + *rel as usize + 1;
+                    if e <= n && e >= g.ngram.len() && types[e - g.ngram.len()..e] == g.ngram[..] {
+                        *sc += w.get(c).copied().unwrap_or(0) as i64;
+                    }
+                }
+            }
+        }
+        let mut row: Vec<Option<String>> = vec![];
+        let mut off = 0;
+        for cands in &tm.tags {
+            if cands.len() >= 2 {
+                let sl = &scores[off..off + cands.len()];
+                let mut idx = 0;
+                for (k, &x) in sl.iter().enumerate() {
+                    if x > sl[idx] {
+                        idx = k;
+                    }
+                }
+                row.push(Some(cands[idx].clone()));
+                off += cands.len();
+            } else {
+                row.push(cands.first().cloned());
+            }
+        }
+        while row.len() < n_tags {
+            row.push(None);
+        }
+        (row, scores)
+    }
+
+    /// well-formedness of the tag models (C06): unique tokens, bias and weight vectors of `n_class` entries,
+    /// relative positions within the window, non-empty n-grams, type codes 1..6
+    pub fn tags_well_formed(&self) -> bool {
+        let mut toks: Vec<&String> = self.tag_models.iter().map(|t| &t.token).collect();
+        let k = toks.len();
+        toks.sort();
+        toks.dedup();
+        toks.len() == k
+            && self.tag_models.iter().all(|t| {
+                let nc = Self::n_class(&t.tags);
+                !t.token.is_empty()
+                    && t.bias.len() == nc
+                    && t.char_ngrams.iter().all(|g| {
+                        !g.ngram.is_empty() && g.weights.iter().all(|(r, w)| *r <= self.char_w && w.len() == nc)
+                    })
+                    && t.type_ngrams.iter().all(|g| {
+                        !g.ngram.is_empty()
+                            && g.ngram.iter().all(|c| (1..=6).contains(c))
+                            && g.weights.iter().all(|(r, w)| *r <= self.type_w && w.len() == nc)
+                    })
+            })
+    }
+
     /// the well-formedness the properties quantify over (C01)
     pub fn well_formed(&self) -> bool {
         let uniq = |ks: Vec<String>| {
@@ -457,6 +541,92 @@ pub fn gen_text(r: &mut Rng, m: &AbsModel, alpha: &[char], max_len: usize) -> St
             s.extend(r.pick(&m.dict).0.chars());
         } else {
             s.push(*r.pick(alpha));
+        }
+    }
+    s.truncate(target.max(1));
+    s.iter().collect()
+}
+
+fn small_weights(r: &mut Rng, n: usize) -> Vec<i32> {
+    (0..n).map(|_| if r.chance(1, 12) { *r.pick(&[32767, -32767]) } else { r.range(-3, 3) as i32 }).collect()
+}
+
+/// adds 0..max well-formed tag models to a boundary model
+pub fn gen_tag_models(r: &mut Rng, m: &mut AbsModel, alpha: &[char], max: usize) {
+    let k = r.below(max + 1);
+    let mut tokens: Vec<String> = vec![];
+    for _ in 0..k {
+        let t = if !m.dict.is_empty() && r.chance(1, 3) {
+            r.pick(&m.dict).0.clone()
+        } else {
+            rand_word(r, alpha, 1, 3)
+        };
+        if !tokens.contains(&t) {
+            tokens.push(t);
+        }
+    }
+    let types: Vec<u8> = {
+        let mut t: Vec<u8> = alpha.iter().map(|&c| vaporetto::CharacterType::get_type(c) as u8).collect();
+        t.sort();
+        t.dedup();
+        t
+    };
+    for token in tokens {
+        let n_cat = r.below(4);
+        let mut tags: Vec<Vec<String>> = vec![];
+        for c in 0..n_cat {
+            let n_cand = *r.pick(&[0usize, 1, 2, 2, 3, 9]);
+            tags.push((0..n_cand).map(|j| format!("{}{}{}", ["名", "x/", "y "][c % 3], c, j)).collect());
+        }
+        let nc = AbsModel::n_class(&tags);
+        let mut tm = AbsTagModel { token, tags, bias: small_weights(r, nc), ..Default::default() };
+        for _ in 0..r.below(5) {
+            let g = if !m.char_ngrams.is_empty() && r.chance(1, 3) {
+                let base: Vec<char> = r.pick(&m.char_ngrams).0.chars().collect();
+                base[r.below(base.len())..].iter().collect()
+            } else {
+                rand_word(r, alpha, 1, 3)
+            };
+            if tm.char_ngrams.iter().any(|x| x.ngram == g) {
+                continue;
+            }
+            let mut ws: Vec<(u8, Vec<i32>)> = vec![];
+            for _ in 0..r.range(1, 2) {
+                let rel = r.below((m.char_w as usize).min(3) + 1) as u8;
+                if !ws.iter().any(|x| x.0 == rel) {
+                    ws.push((rel, small_weights(r, nc)));
+                }
+            }
+            tm.char_ngrams.push(TagNgram { ngram: g, weights: ws });
+        }
+        for _ in 0..r.below(4) {
+            let l = r.range(1, 3) as usize;
+            let g: Vec<u8> = (0..l).map(|_| *r.pick(&types)).collect();
+            if tm.type_ngrams.iter().any(|x| x.ngram == g) {
+                continue;
+            }
+            let mut ws: Vec<(u8, Vec<i32>)> = vec![];
+            for _ in 0..r.range(1, 2) {
+                let rel = r.below((m.type_w as usize).min(3) + 1) as u8;
+                if !ws.iter().any(|x| x.0 == rel) {
+                    ws.push((rel, small_weights(r, nc)));
+                }
+            }
+            tm.type_ngrams.push(TagNgram { ngram: g, weights: ws });
+        }
+        m.tag_models.push(tm);
+    }
+}
+
+/// a text biased towards containing the tag models' tokens
+pub fn gen_text_tags(r: &mut Rng, m: &AbsModel, alpha: &[char], max_len: usize) -> String {
+    let target = r.range(1, max_len as i64) as usize;
+    let mut s: Vec<char> = vec![];
+    while s.len() < target {
+        match r.below(4) {
+            0 if !m.tag_models.is_empty() => s.extend(r.pick(&m.tag_models).token.chars()),
+            1 if !m.char_ngrams.is_empty() => s.extend(r.pick(&m.char_ngrams).0.chars()),
+            _ => s.push(*r.pick(alpha)),
         }
     }
     s.truncate(target.max(1));
